@@ -215,11 +215,11 @@ void FnEmitter::emitInst(const Instruction& I) {
     std::string e;
     std::string inr = "((" + ct + ")" + b + " < " + std::to_string(n) + ")";
     if (I.getOpcode() == Instruction::Shl)
-      e = "(" + inr + " ? (" + ct + ")" + a + " << (" + ct + ")" + b + " : 0)";
+      e = "(" + inr + " ? (" + ct + ")" + a + " << (" + ct + ")" + b + " : (" + ct + ")VF_POISON())";
     else if (I.getOpcode() == Instruction::LShr)
-      e = "(" + inr + " ? (" + ct + ")" + a + " >> (" + ct + ")" + b + " : 0)";
+      e = "(" + inr + " ? (" + ct + ")" + a + " >> (" + ct + ")" + b + " : (" + ct + ")VF_POISON())";
     else
-      e = "(" + inr + " ? (" + ct + ")(" + T.sext(a, n) + " >> (" + ct + ")" + b + ") : 0)";
+      e = "(" + inr + " ? (" + ct + ")(" + T.sext(a, n) + " >> (" + ct + ")" + b + ") : (" + ct + ")VF_POISON())";
     assign(I, "(" + ty(Ty) + ")" + T.mask(e, n));
     return;
   }
@@ -388,12 +388,15 @@ void FnEmitter::emitInst(const Instruction& I) {
   }
   case Instruction::LandingPad:
     body << "  VF_FATAL(\"landingpad\");\n";
+    if (step) body << "  if (vf_dead) return;\n";
     return;
   case Instruction::Resume:
     body << "  VF_FATAL(\"resume\");\n";
+    if (step) body << "  if (vf_dead) return;\n";
     return;
   case Instruction::Unreachable:
     body << "  VF_UNREACHABLE();\n";
+    if (step) body << "  if (vf_dead) return;\n";
     return;
   case Instruction::Ret: {
     auto& R = cast<ReturnInst>(I);
